@@ -140,7 +140,46 @@ func strictOf(c *ex.Ctx, where string, guards []string, lhs string, want int) []
 	return out
 }
 
+// required: every definition the Lean side refers to. gen always writes the file; what could not
+// be recognised gets "?unrecognised" (Bools: the value of the current, fixed code), the error goes to
+// extractErrors and the extractor still exits non-zero: the facts theorems fail, but model and
+// driver keep building so that the correspondence run can look for a concrete failing input.
+var required = []struct{ name, typ string }{
+	{"newSurfaceLen", "S"}, {"wideLen", "B"}, {"writeCellReject", "L"}, {"writeCellIndex", "S"}, {"strictRow", "B"}, {"wideIdx", "B"},
+	{"renderFacts", "L"},
+	{"textSizeGuards", "L"}, {"textSizeSoftStrict", "B"}, {"textSizeHardStrict", "B"},
+	{"textDrawHardGuards", "L"}, {"textDrawHardStrict", "F"}, {"textDrawSoftGuards", "L"}, {"textDrawSoftStrict", "F"},
+	{"richSizeGuards", "L"}, {"richSizeSoftStrict", "B"}, {"richSizeHardStrict", "B"},
+	{"richDrawHardGuards", "L"}, {"richDrawHardStrict", "F"}, {"richDrawSoftGuards", "L"}, {"richDrawSoftStrict", "F"},
+	{"centerFacts", "L"}, {"textFieldFacts", "L"},
+}
+
 func gen(c *ex.Ctx) {
+	var sb strings.Builder
+	sb.WriteString("namespace VaxisModel.Gen.SurfaceFacts\n\n")
+	genBody(c, &sb)
+	for _, r := range required {
+		if strings.Contains(sb.String(), "\ndef "+r.name+" :") {
+			continue
+		}
+		c.Fail("no value extracted for %s", r.name)
+		switch r.typ {
+		case "L":
+			fmt.Fprintf(&sb, "def %s : List String := [\"?unrecognised\"]\n", r.name)
+		case "S":
+			fmt.Fprintf(&sb, "def %s : String := \"?unrecognised\"\n", r.name)
+		case "B":
+			fmt.Fprintf(&sb, "def %s : Bool := true\n", r.name)
+		case "F":
+			fmt.Fprintf(&sb, "def %s : Bool := false\n", r.name)
+		}
+	}
+	fmt.Fprintf(&sb, "\n/-- What the extractor could not recognise (empty when the source has the expected shape). -/\ndef extractErrors : List String := %s\n\n", leanList(c.Errs))
+	sb.WriteString("end VaxisModel.Gen.SurfaceFacts\n")
+	c.Write("SurfaceFacts.lean", sb.String())
+}
+
+func genBody(c *ex.Ctx, sbp *strings.Builder) {
 	vx := c.Parse("vxfw/vxfw.go")
 	txt := c.Parse("vxfw/text/text.go")
 	rich := c.Parse("vxfw/richtext/richtext.go")
@@ -149,9 +188,6 @@ func gen(c *ex.Ctx) {
 	if vx == nil || txt == nil || rich == nil || cen == nil || tf == nil {
 		return
 	}
-	var sb strings.Builder
-	sb.WriteString("namespace VaxisModel.Gen.SurfaceFacts\n\n")
-
 	// NewSurface: the length expression of make([]vaxis.Cell, …)
 	if fd := ex.FindFunc(vx, "", "NewSurface"); fd == nil {
 		c.Fail("NewSurface not found")
@@ -174,7 +210,7 @@ func gen(c *ex.Ctx) {
 		default:
 			c.Fail("NewSurface: unrecognised buffer length %q", lenExpr)
 		}
-		fmt.Fprintf(&sb, "/-- %s: length of the buffer (P0 = width, P1 = height, both uint16). -/\ndef newSurfaceLen : String := %s\ndef wideLen : Bool := %v\n\n", c.Pos(fd), ex.LeanStr(lenExpr), wide)
+		fmt.Fprintf(sbp, "/-- %s: length of the buffer (P0 = width, P1 = height, both uint16). -/\ndef newSurfaceLen : String := %s\ndef wideLen : Bool := %v\n\n", c.Pos(fd), ex.LeanStr(lenExpr), wide)
 	}
 
 	// WriteCell: guard atoms and the index expression
@@ -219,7 +255,7 @@ func gen(c *ex.Ctx) {
 		default:
 			c.Fail("WriteCell: unrecognised index %q", idx)
 		}
-		fmt.Fprintf(&sb, "/-- %s: reject guards (P0 = col, P1 = row) and the index. -/\ndef writeCellReject : List String := %s\ndef writeCellIndex : String := %s\ndef strictRow : Bool := %v\ndef wideIdx : Bool := %v\n\n",
+		fmt.Fprintf(sbp, "/-- %s: reject guards (P0 = col, P1 = row) and the index. -/\ndef writeCellReject : List String := %s\ndef writeCellIndex : String := %s\ndef strictRow : Bool := %v\ndef wideIdx : Bool := %v\n\n",
 			c.Pos(fd), leanList(atoms), ex.LeanStr(idx), strict, wide)
 	}
 
@@ -260,7 +296,7 @@ func gen(c *ex.Ctx) {
 			}
 			return true
 		})
-		fmt.Fprintf(&sb, "/-- %s: the loops of render (K/E = range key/value). -/\ndef renderFacts : List String := %s\n\n", c.Pos(fd), leanList(facts))
+		fmt.Fprintf(sbp, "/-- %s: the loops of render (K/E = range key/value). -/\ndef renderFacts : List String := %s\n\n", c.Pos(fd), leanList(facts))
 	}
 
 	// Text / RichText: height guards of findContainerSize (soft loop first, then hard) and of Draw
@@ -286,11 +322,11 @@ func gen(c *ex.Ctx) {
 		}
 		gs := heightGuards(c, fd)
 		st := strictOf(c, it.recv+"."+it.name, gs, it.lhs, it.n)
-		fmt.Fprintf(&sb, "/-- %s: conditions on ctx.Max.Height, in source order. -/\ndef %sGuards : List String := %s\n", c.Pos(fd), it.lean, leanList(gs))
+		fmt.Fprintf(sbp, "/-- %s: conditions on ctx.Max.Height, in source order. -/\ndef %sGuards : List String := %s\n", c.Pos(fd), it.lean, leanList(gs))
 		if it.n == 2 {
-			fmt.Fprintf(&sb, "def %sSoftStrict : Bool := %v\ndef %sHardStrict : Bool := %v\n\n", it.lean, st[0], it.lean, st[1])
+			fmt.Fprintf(sbp, "def %sSoftStrict : Bool := %v\ndef %sHardStrict : Bool := %v\n\n", it.lean, st[0], it.lean, st[1])
 		} else {
-			fmt.Fprintf(&sb, "def %sStrict : Bool := %v\n\n", it.lean, st[0])
+			fmt.Fprintf(sbp, "def %sStrict : Bool := %v\n\n", it.lean, st[0])
 		}
 	}
 
@@ -332,7 +368,7 @@ func gen(c *ex.Ctx) {
 			}
 			return true
 		})
-		fmt.Fprintf(&sb, "/-- %s. -/\ndef centerFacts : List String := %s\n\n", c.Pos(fd), leanList(facts))
+		fmt.Fprintf(sbp, "/-- %s. -/\ndef centerFacts : List String := %s\n\n", c.Pos(fd), leanList(facts))
 	}
 
 	// TextField.Draw: zero-constraint return, surface size, writes
@@ -359,11 +395,7 @@ func gen(c *ex.Ctx) {
 			}
 			return true
 		})
-		fmt.Fprintf(&sb, "/-- %s. -/\ndef textFieldFacts : List String := %s\n\n", c.Pos(fd), leanList(facts))
+		fmt.Fprintf(sbp, "/-- %s. -/\ndef textFieldFacts : List String := %s\n\n", c.Pos(fd), leanList(facts))
 	}
 
-	sb.WriteString("end VaxisModel.Gen.SurfaceFacts\n")
-	if len(c.Errs) == 0 {
-		c.Write("SurfaceFacts.lean", sb.String())
-	}
 }
